@@ -8,6 +8,8 @@ import json, os, subprocess, sys, shutil
 
 ENV = dict(os.environ, GOFLAGS="-mod=mod", GOPROXY="off", GOSUMDB="off", GOTOOLCHAIN="local")
 WT = "/tmp/wt/confirm"
+PRIVATE = os.environ.get("SEED_PRIVATE") == "1"
+private_det = {}
 
 
 def sh(cmd, cwd=None, timeout=1800):
@@ -44,12 +46,28 @@ def main():
         rc, out = sh("go test -vet=off -count=1 ./test/", cwd=WT)
         res["patch_plus_demo_fails"] = rc != 0
         res["demo_output_tail"] = out[-600:]
+        os.remove(dst)
+        ok = all(res.get(x) for x in ("clean_plus_demo_passes", "patch_applies", "builds", "suite_passes_with_patch", "patch_plus_demo_fails"))
+        if ok and PRIVATE:
+            # SEED_PRIVATE=1: run the checks in a private copy of /verif against the patched scratch worktree, so that
+            # /repo's working tree stays untouched (other runs may be reading it)
+            VC = "/tmp/vc/verif"
+            shutil.rmtree("/tmp/vc", ignore_errors=True)
+            os.makedirs("/tmp/vc")
+            sh(["rsync", "-a", "--exclude", ".git", "--exclude", ".build", "--exclude", "replays", "/verif/", VC + "/"])
+            gm = open(VC + "/go.mod").read().replace("=> /repo", "=> " + WT)
+            open(VC + "/go.mod", "w").write(gm)
+            for c in checks:
+                rc, out = sh(["./run.sh", c, "quick"], cwd=VC, timeout=3600)
+                lines = [l for l in out.splitlines() if "VIOLATION" in l or "sub-property=" in l or l.startswith("INFRA")]
+                private_det[c] = {"exit": rc, "first_lines": [l[:300].replace(VC, "/verif") for l in lines[:4]]}
+            shutil.rmtree("/tmp/vc", ignore_errors=True)
     finally:
         sh(["git", "-C", "/repo", "worktree", "remove", "--force", WT])
     ok = all(res.get(x) for x in ("clean_plus_demo_passes", "patch_applies", "builds", "suite_passes_with_patch", "patch_plus_demo_fails"))
     res["confirmed"] = ok
-    det = {}
-    if ok:
+    det = dict(private_det)
+    if ok and not PRIVATE:
         rc, out = sh(["git", "-C", "/repo", "status", "--porcelain"])
         assert out.strip() == "", "repo dirty: " + out
         rc, out = sh(["git", "apply", patch], cwd="/repo")
@@ -76,7 +94,7 @@ def main():
     head = subprocess.run(["git", "-C", "/repo", "rev-parse", "--short", "HEAD"], stdout=subprocess.PIPE, text=True).stdout.strip()
     out = {"property": pid, "id": "%s-%s" % (pid, k), "summary": meta.get("summary"), "needs": meta.get("needs"),
            "agent_meta": meta, "confirmation": res, "confirmed_against_repo_commit": head,
-           "what_i_ran": "tools/seed_confirm.py: scratch worktree of /repo HEAD; demo on clean tree; git apply; go build ./...; go test ./... (suite); suite+demo; then git -C /repo apply, ./run.sh <check> quick, git checkout -- .",
+           "what_i_ran": "tools/seed_confirm.py: scratch worktree of /repo HEAD; demo on clean tree; git apply; go build ./...; go test ./... (suite); suite+demo; then " + ("the quick check in a private copy of /verif whose go.mod points at the patched scratch worktree (/repo untouched)" if PRIVATE else "git -C /repo apply, ./run.sh <check> quick, git checkout -- ."),
            "detection_quick": det, "detected": any(v["exit"] == 1 for v in det.values())}
     json.dump(out, open(os.path.join(d, "meta.json"), "w"), indent=1, ensure_ascii=False)
     print(pid, k, "confirmed" if ok else "NOT-CONFIRMED " + json.dumps({k2: v for k2, v in res.items() if k2 != "demo_output_tail"}), "| detected:", {c: v["exit"] for c, v in det.items()})
